@@ -8,6 +8,8 @@ import (
 
 func lookPath(s string) (string, error) { return exec.LookPath(s) }
 
+func execCommand(name string, args ...string) *exec.Cmd { return exec.Command(name, args...) }
+
 // tryReplay attempts to run the solver's counterexample against the real code. It returns a
 // textual report containing REPLAY-CONFIRMED when the real code exhibits the violation; ""
 // when no replay harness exists for the obligation's function.
